@@ -136,7 +136,13 @@ func (ml *TruncatingMethodLogger) truncateMetadata(mdPb *binlogpb.Metadata) (tru
 		bytesLimit -= currentEntryLen
 	}
 	truncated = index < len(mdPb.Entry)
-	mdPb.Entry = mdPb.Entry[:index]
+	kept := mdPb.Entry[:index]
+	for _, e := range mdPb.Entry[index:] {
+		if e.Key == "grpc-trace-bin" {
+			kept = append(kept, e)
+		}
+	}
+	mdPb.Entry = kept
 	return truncated
 }
 
